@@ -5,6 +5,7 @@ import Proofs.RenderPad
 import Proofs.RenderParses
 import Proofs.ParsePad
 import Proofs.RenderObj
+import Proofs.OriginTrunc
 /-!
 # C08 — rendered messages respect the size limit; truncation and padding are exact
 
@@ -128,6 +129,23 @@ theorem result_parses (m : Message) (lim : Nat) (w : Bytes) (hok : MsgOkP eqvSpe
     exact ⟨m', opt', hp, hr, Or.inl hs⟩
   · obtain ⟨m', opt', hp, hs, hr⟩ := parse_toWire_pad (m.cut k (m.tcAt k)) lim w (hok.cut k _) h2 cfg horg hnorr hkey
     exact ⟨m', opt', hp, hr, Or.inr ⟨k, hk, hs⟩⟩
+
+/-- `result_parses` for messages that carry an origin (relative names): the truncated rendering, parsed with the same
+origin, is the message or its prefix `m.cut k` *after relativisation* (`relNorm`: every section name made absolute against
+the origin and relativized again — the message itself when its names are normal, see `C03.parse_render_origin`), with
+the OPT (up to the padding option) and the TSIG kept; guard: the absolutized message is well formed (`MsgOkP`). -/
+theorem result_parses_origin (m : Message) (o : Name) (hm : m.origin = some o) (ho : isAbs o = true) (lim : Nat) (w : Bytes)
+    (hok : MsgOkP eqvSpec (m.absolutize o)) (h : m.toWire lim true = .ok w)
+    (cfg : PCfg) (horg : cfg.origin = none) (hnorr : cfg.oneRRPerRRset = false) (hkey : cfg.hasKey = true) :
+    ∃ m' opt', parseMessage { cfg with origin := some o } w = .ok m' ∧ m'.origin = some o ∧ OptPadRel m.pad m.opt opt' ∧
+      (m'.simT eqvSpec { m.relNorm o with opt := opt' } ∨
+        ∃ k, k < m.items.length ∧ m'.simT eqvSpec { (m.cut k (m.tcAt k)).relNorm o with opt := opt' }) :=
+  parse_toWire_trunc_origin m o hm ho lim w hok h cfg horg hnorr hkey
+
+-- non-vacuity: a message with origin `ex.` and relative owners whose second record set does not fit in 512 octets is cut to one set
+set_option maxRecDepth 100000 in
+example : (({ id := 1, flags := 32768, origin := some [[101,120],[]], q := [{ name := [[119]], rdclass := 1, rdtype := 16 }], an := [{ name := [[119]], rdclass := 1, rdtype := 16, ttl := 1, rdatas := [.raw (List.replicate 300 7)] }, { name := [[120]], rdclass := 1, rdtype := 16, ttl := 1, rdatas := [.raw (List.replicate 300 7)] }] } : Message).toWire 512 true).map (fun w => (w.length, w.take 4, w.drop 4 |>.take 4)) = .ok (334, [0, 1, 130, 0], [0, 1, 0, 1]) := by
+  rfl
 
 /-- "when padding is requested the final length, TSIG included, is a multiple of the block size": for every message
 that carries an OPT record and requests padding (`pad ≠ 0`), with or without TSIG, at any limit, with or without
